@@ -720,6 +720,42 @@ fn fam_redaction(o: &mut Out) {
     }
 }
 
+
+/// String-encoded levels (accepted before room version 10): every spelling, in every position
+/// where the level decides the outcome.
+fn fam_level_formats(o: &mut Out) {
+    let spellings: &[&str] = &[
+        "50", " 50", "50 ", "\n 50 \n", "+50", "-0", "++50", "+-50", "-+50", "--50", "+ 50", "- 50", "050", "+050",
+        "\u{ff15}\u{ff10}", "50.0", "5e1", "0x32", "\u{a0}50", "50\u{2003}", "\u{3000}50\u{1680}", "\u{200b}50",
+        "\u{1c}50", "\u{85}50\u{2028}", "", "+", "-", " ", "5 0", "9007199254740991", "9007199254740992",
+        "-9007199254740991", "-9007199254740992", "+9007199254740991", "+9007199254740992",
+        "18446744073709551616", "-9223372036854775809", "00000000000000000000000050", "50x", "x50",
+    ];
+    for ver in 1..=11u32 {
+        for sp in spellings {
+            for pos in 0..5 {
+                if !o.want() {
+                    continue;
+                }
+                let v = json!(sp);
+                // the sender needs exactly level 50 to send this state event
+                let pl = match pos {
+                    0 => json!({"users": {ALICE: v}, "state_default": 50}),
+                    1 => json!({"users_default": v, "state_default": 50}),
+                    2 => json!({"users": {ALICE: 50}, "state_default": v}),
+                    3 => json!({"users": {ALICE: 50}, "events": {"m.room.topic": v}}),
+                    _ => json!({"users": {ALICE: 50, BOB: v}, "state_default": 50}),
+                };
+                let ev = Ev::new("$ev", ALICE, "m.room.topic", Some(""), json!({"topic": "t"}));
+                let mut s = Scn::new(ver, ev);
+                s.set_member(ALICE, mem_content(Mem::Join));
+                s.pl = Some(pl);
+                o.push(s, "level_formats");
+            }
+        }
+    }
+}
+
 type Fam = fn(&mut Out);
 
 /// (family, approximate full size, quick target)
@@ -727,7 +763,7 @@ const FAMILIES: &[(Fam, u64, u64)] = &[
     (fam_create, 2000, 120),
     (fam_prechecks, 3600, 150),
     (fam_aliases, 800, 80),
-    (fam_join, 120_000, 900),
+    (fam_join, 260_000, 900),
     (fam_invite, 16_000, 400),
     (fam_tpi_invite, 7400, 300),
     (fam_leave, 50_000, 600),
@@ -738,6 +774,7 @@ const FAMILIES: &[(Fam, u64, u64)] = &[
     (fam_required_power, 20_000, 400),
     (fam_power_levels, 24_000, 600),
     (fam_redaction, 1800, 120),
+    (fam_level_formats, 2200, 500),
 ];
 
 pub fn exhaustive(rng: &mut Rng, tier: &str) -> Vec<(Scn, String)> {
